@@ -13,10 +13,15 @@ Definition exact_accounting (s : st) : Prop :=
 
 Definition count_bound (cf : cfg) (s : st) : Prop := 0 <= cnt s <= eff_max cf.
 
-(* a connection is in at most one place (idle list, one requester, one hand-over, one delivered
-   wantConn, or being closed), and only connections that were really dialled appear *)
+(* Every connection that was ever dialled is in exactly one place: the idle list, one requester, one hand-over,
+   one delivered wantConn, the cleaner's private copy, or the log of connections whose Close() was called.
+   So: a connection is never lent twice, never lent or kept idle after Close, Close is called at most once per
+   connection, and no connection silently leaves the pool (held or closed, nothing else). *)
 Definition exclusive (s : st) : Prop :=
-  NoDup (held s ++ closing s) /\ forall c, In c (held s ++ closing s) -> (c < next s)%nat.
+  NoDup (held s ++ closelog s) /\ forall c, In c (held s ++ closelog s) <-> (c < next s)%nat.
+
+(* connections inside Close() are a part of the close log *)
+Definition closing_logged (s : st) : Prop := forall c, In c (closing s) -> In c (closelog s).
 
 (* the strict reading of "never more than MaxConns connections open or being dialled" *)
 Definition open_bound (cf : cfg) (s : st) : Prop := open_or_dialling s <= eff_max cf.
